@@ -210,6 +210,7 @@ class Closure:
             fields = [x for x in tu.kids(ks[0]) if x.get('kind') == 'FieldDecl']
         inits = ks[1:-1] if len(ks) >= 2 else []
         self.captures = []          # (what, byref) ; what = 'this' | decl id
+        self.fieldmap = {}
         for i, init in enumerate(inits):
             c = core(tu, init)
             what = None
@@ -229,6 +230,64 @@ class Closure:
             if w == declid:
                 return (w, r, t)
         return None
+
+
+class FunctorClosure:
+    """a named functor class constructed in place: its fields are the captures (field <- constructor argument)"""
+
+    def __init__(self, tu, node, rec, op, ctor):
+        self.tu, self.node, self.rec, self.op = tu, node, rec, op
+        self.captures = []
+        self.fieldmap = {}     # field id -> captured decl id | 'this'
+        args = tu.kids(node)
+        g = tu.cfg(ctor) if ctor is not None else None
+        ftypes = {f['id']: f for f in rec.get('fields', [])}
+        if g is not None:
+            for b, i, e in g.elements():
+                if e[0] == 'I' and e[2]:
+                    d = decl_ref(tu, tu.node(e[1]))
+                    for pi, p in enumerate(ctor['params']):
+                        if p['id'] == d and pi < len(args):
+                            c = core(tu, args[pi])
+                            what = None
+                            if c is not None and c.get('kind') == 'CXXThisExpr':
+                                what = 'this'
+                            elif c is not None and c.get('kind') == 'DeclRefExpr':
+                                what = c.get('referencedDecl', {}).get('id')
+                            ft = ftypes.get(e[2], {}).get('type', '')
+                            # a reference member bound to a by-value/rvalue constructor parameter dangles just like a by-reference capture
+                            self.captures.append((what, ft.rstrip().endswith('&'), ft))
+                            self.fieldmap[e[2]] = what
+
+    def captures_this(self):
+        return False
+
+    def capture_of(self, declid):
+        for w, r, t in self.captures:
+            if w == declid:
+                return (w, r, t)
+        return None
+
+
+def find_closure(tu, e):
+    """Closure / FunctorClosure for an argument expression that denotes a callable object built at the call site"""
+    lam = find_lambda(tu, e)
+    if lam is not None:
+        return Closure(tu, lam)
+    c = core(tu, e)
+    if c is not None and c.get('kind') == 'DeclRefExpr':
+        d = tu.node(c.get('referencedDecl', {}).get('id'))
+        if d is not None and d.get('kind') == 'VarDecl' and tu.kids(d) and tu.enclosing_fn(d) is not None:
+            c = core(tu, tu.kids(d)[-1])
+    if c is not None and c.get('kind') in CONSTRUCTS and not is_copy_construct(tu, c):
+        ctor = tu.callee_fn(c)
+        rec = tu.records.get(ctor.get('recid')) if ctor is not None else None
+        if rec is not None and not rec.get('lambda'):
+            ops = [f for f in tu.functions.values() if f.get('recid') == rec['id'] and not f['dep'] and
+                   f['q'].endswith('::operator()') and tu.cfg(f) is not None]
+            if len(ops) == 1:
+                return FunctorClosure(tu, c, rec, ops[0], ctor)
+    return None
 
 
 def find_lambda(tu, e, depth=0):
@@ -395,6 +454,8 @@ class HandoffAnalysis:
         ev = {}            # node id -> event dict
         handles_var = {}   # var decl id -> wrap event   (pointer to a heap task wrapping the closure)
         smart_vars = {}    # var decl id -> True if the variable is a std::unique_ptr / shared_ptr owning the task
+        keeps = {}         # submit call node id -> smart pointer variable that still owns the task after the hand-off
+        smart_release = {} # node id of smart.release() -> variable
         handles_mem = {}   # field id -> wrap event      (member task wrapping the closure)
 
         def carrier_arg(a):
@@ -470,6 +531,8 @@ class HandoffAnalysis:
                 if q in (THREAD_DETACH, THREAD_JOIN) and obj is not None:
                     ev[n['id']] = dict(kind='release', node=n, obj=obj)
                     continue
+                if q.split('::')[-1] == 'release' and obj is not None and decl_ref(tu, obj) in smart_vars:
+                    smart_release[n['id']] = decl_ref(tu, obj)
                 hits = [(ai, carrier_arg(a)) for ai, a in enumerate(args)]
                 hits = [(ai, c) for ai, c in hits if c is not None]
                 if not hits:
@@ -518,7 +581,7 @@ class HandoffAnalysis:
                         d, how = pointer_var(tu, a)
                         w = handles_var.get(d) if d else None
                         if w is not None and how in ('plain', 'get') and smart_vars.get(d):
-                            ev.setdefault(('keeps', n['id']), d)    # the smart pointer still owns the submitted task
+                            keeps[n['id']] = d    # the smart pointer still owns the submitted task
                         if w is None:
                             x = addr_of(tu, a)
                             m = member_of_this(tu, x) if x is not None else None
@@ -583,9 +646,14 @@ class HandoffAnalysis:
         def transfer(blk, idx, e, st):
             cnt, pend = st
             if e[0] == 'S':
+                if e[1] in smart_release:
+                    pend = pend - {('smart', smart_release[e[1]])}
+                    st = (cnt, pend)
                 x = ev.get(e[1])
                 if x is None:
                     return [st]
+                if e[1] in keeps:
+                    pend = pend | {('smart', keeps[e[1]])}
                 if x['kind'] == 'release':
                     o = thread_obj_owner(x['obj'])
                     if o in pend:
@@ -595,6 +663,12 @@ class HandoffAnalysis:
                 if x['kind'] == 'thread-local':
                     pend = pend | {x['owner']}
                 return [(cnt, pend)]
+            if e[0] == 'AD' and ('smart', e[1]) in pend:
+                h.problems.append(('task-freed-after-submit',
+                                   'the smart pointer `%s` still owns the task object after it has been handed to the task system (no '
+                                   'release()): its destructor deletes the task while the scheduler may still run or update it' % e[2],
+                                   tu.fn_loc(f)))
+                return [(cnt, pend - {('smart', e[1])})]
             if e[0] == 'AD':
                 o = ('var', e[1])
                 if o in pend:
